@@ -20,10 +20,11 @@ from ..rat import ppb
 from .. import tlc
 from ..ms import relerr
 
-VALUES = {"defocus": [-50.0, 20.0, 80.0], "C30": [0.0, 1.0e5, -2.0e5], "C12": [10.0, 30.0, 50.0], "phi12": [0.0, 0.5, 1.0],
-          "semiangle_cutoff": [15.0, 20.0, 25.0], "tilt_x": [0.0, 3.0, -4.0], "tilt_y": [2.0, -1.0, 5.0], "focal_spread": [5.0, 20.0, 40.0],
-          "angular_spread": [0.3, 1.0, 2.0]}
-POSITIONS = np.array([[0.0, 0.0], [1.3, 0.7], [2.9, 3.1]])
+VALUES = {"defocus": [-50.0, 20.0, 80.0, 140.0, -110.0], "C30": [0.0, 1.0e5, -2.0e5, 3.0e5, -0.5e5], "C12": [10.0, 30.0, 50.0, 70.0, 20.0],
+          "phi12": [0.0, 0.5, 1.0, 1.5, -0.7], "semiangle_cutoff": [15.0, 20.0, 25.0, 12.0, 28.0], "tilt_x": [0.0, 3.0, -4.0, 6.0, 1.5],
+          "tilt_y": [2.0, -1.0, 5.0, -3.5, 0.5], "focal_spread": [5.0, 20.0, 40.0, 60.0, 10.0], "angular_spread": [0.3, 1.0, 2.0, 0.6, 1.5]}
+POSITIONS = np.array([[0.0, 0.0], [1.3, 0.7], [2.9, 3.1], [0.4, 2.2], [3.3, 1.1]])
+COMPANION = {"zero": {"tilt": (0.0, 0.0), "ab": {}}, "nonzero": {"tilt": (2.5, -1.5), "ab": {"C30": 4.0e4, "defocus": 15.0}}}
 
 
 def small_potential():
@@ -33,21 +34,26 @@ def small_potential():
     return abtem.Potential(atoms, gpts=16, slice_thickness=2.0, projection="infinite")
 
 
-def run_object(obj, kw, soft, lazy, detect, positions=None, propagate=False):
+def run_object(obj, kw, soft, lazy, detect, positions=None, propagate=False, max_batch="auto", companion="zero"):
     """kw: parameter -> scalar or distribution.  Returns the result object."""
     import abtem
-    tilt = (kw.pop("tilt_x", 0.0), kw.pop("tilt_y", 0.0))
+    comp = COMPANION[companion]
+    tilt = (kw.pop("tilt_x", comp["tilt"][0]), kw.pop("tilt_y", comp["tilt"][1]))
+    if obj in ("probe", "ctf", "spatial"):
+        for k, v in comp["ab"].items():
+            kw.setdefault(k, v)
     use_tilt = propagate
     if obj == "probe":
         cutoff = kw.pop("semiangle_cutoff", 20.0)
         scan = abtem.CustomScan(POSITIONS if positions is None else positions)
         p = abtem.Probe(energy=100e3, semiangle_cutoff=cutoff, soft=soft, extent=4.0, gpts=16, tilt=tilt, **kw)
         if use_tilt or detect:
-            return p.multislice(small_potential(), scan=scan, detectors=abtem.PixelatedDetector(max_angle=None) if detect else None, lazy=lazy)
-        return p.build(scan=scan, lazy=lazy)
+            return p.multislice(small_potential(), scan=scan, detectors=abtem.PixelatedDetector(max_angle=None) if detect else None, lazy=lazy,
+                                max_batch=max_batch)
+        return p.build(scan=scan, lazy=lazy, max_batch=max_batch)
     if obj == "plane_wave":
         w = abtem.PlaneWave(energy=100e3, tilt=tilt)
-        return w.multislice(small_potential(), detectors=abtem.PixelatedDetector(max_angle=None) if detect else None, lazy=lazy)
+        return w.multislice(small_potential(), detectors=abtem.PixelatedDetector(max_angle=None) if detect else None, lazy=lazy, max_batch=max_batch)
     base = abtem.Probe(energy=100e3, semiangle_cutoff=30.0, extent=4.0, gpts=16, defocus=10.0).build(scan=abtem.CustomScan(POSITIONS[:2]), lazy=lazy)
     if obj == "ctf":
         t = abtem.CTF(energy=100e3, soft=soft, **kw)
@@ -59,7 +65,7 @@ def run_object(obj, kw, soft, lazy, detect, positions=None, propagate=False):
         t = abtem.transfer.SpatialEnvelope(energy=100e3, **kw)
     else:
         raise Machinery(obj)
-    return t.apply(base)
+    return t.apply(base, max_batch=max_batch)
 
 
 def observe(c):
@@ -71,13 +77,14 @@ def observe(c):
     vals = {p: (VALUES[p][: lens[p]] if p != "positions" else list(range(lens[p]))) for p in params}
     pos = POSITIONS[: lens["positions"]] if "positions" in params else None
     dist_params = [p for p in params if p != "positions"]
-    prop = any(p.startswith("tilt") for p in params)       # a tilt only acts through propagation
+    prop = any(p.startswith("tilt") for p in params) or (c.get("companion") == "nonzero" and c["obj"] in ("probe", "plane_wave"))   # a tilt only acts through propagation
     res = None
     try:
         with warnings.catch_warnings():
             warnings.simplefilter("ignore")
             kw = {p: abtem.distributions.from_values(np.array(vals[p]), ensemble_mean=mean) for p in dist_params}
-            res = run_object(c["obj"], kw, c["soft"], c["lazy"], detect=mean, positions=pos, propagate=prop)
+            res = run_object(c["obj"], kw, c["soft"], c["lazy"], detect=mean, positions=pos, propagate=prop,
+                             max_batch=2 if c.get("batch") == "two" else "auto", companion=c.get("companion", "zero"))
             if hasattr(res, "compute") and c["lazy"]:
                 res = res.compute()
             full = np.asarray(res.array)
@@ -91,7 +98,7 @@ def observe(c):
             warnings.simplefilter("ignore")
             for combo in itertools.product(*[range(lens[p]) for p in dist_params]):
                 kw = {p: vals[p][i] for p, i in zip(dist_params, combo)}
-                r = run_object(c["obj"], kw, c["soft"], False, detect=mean, positions=pos, propagate=prop)
+                r = run_object(c["obj"], kw, c["soft"], False, detect=mean, positions=pos, propagate=prop, companion=c.get("companion", "zero"))
                 scal[combo] = np.asarray(r.array)
     except Exception as ex:
         ev["scalar_raised"] = True
@@ -163,7 +170,7 @@ def self_test(ctx: Ctx):
 def run(ctx: Ctx):
     quick = ctx.tier == "quick"
     ctx.rule = ("cases = object x subset (size 1-2) of its distribution-capable parameters (defocus, C30, C12, phi12, semiangle_cutoff, "
-                "tilt components, focal/angular spread, probe positions) x lengths 1-3 x soft/hard x ensemble_mean x lazy/eager, "
+                "tilt components, focal/angular spread, probe positions) x lengths 1-3 and 5 (the latter lazily with max_batch 2: uneven blocks) x zero / non-zero scalar companions (tilt, Cs, defocus) x soft/hard x ensemble_mean x lazy/eager, "
                 "enumerated by TLC; the ensemble run is compared member by member with scalar runs; non-trivial = a distribution of "
                 "length >= 2")
     r = ctx.design_check("Decomp", "Decomp.cfg", label="case space", workers=1)
@@ -174,7 +181,15 @@ def run(ctx: Ctx):
     cases.sort(key=lambda c: json.dumps(c, sort_keys=True))
     rng.shuffle(cases)
     if quick:
-        cases = cases[:90]
+        # every (object, parameter set) once, every (object, uneven batching) and (object, non-zero companions) once, then the seeded remainder
+        seen, first, rest = set(), [], []
+        for c in cases:
+            ks = [("p", c["obj"], tuple(sorted(c["params"]))), ("b", c["obj"], c["batch"], tuple(sorted(c["params"]))[0]), ("c", c["obj"], c["companion"], c["lazy"])]
+            new = [k for k in ks if k not in seen]
+            (first if new else rest).append(c)
+            seen.update(ks)
+        cases = first + rest[:20]
+        ctx.notes["strata"] = len(seen)
     else:
         ctx.exhaustive = True
     evs = []
